@@ -546,7 +546,8 @@ def rec_of(o):
         if inst is not None and cls != "unreg":
             inst = eff_us(cls, inst)
     return {"id": o["id"], "inst": inst, "pay": o["pay"], "typ": o["typ"], "text": cls == "unreg",
-            "has_mod": o.get("mod") is not None or bool(o.get("moddt")), "props": o.get("props") or {}}
+            "has_mod": o.get("mod") is not None or bool(o.get("moddt")), "props": o.get("props") or {},
+            "naive": is_naive(o)}
 
 
 def holds(f, r):
@@ -578,11 +579,26 @@ def oracle_case(case, impl):
     af = case.get("af", [])
     store = case["store"]
 
-    naive = store == "mem" and has_naive(case)
+    # ids on which the memory store raised TypeError while adding a version whose `modified` is a
+    # timezone-naive datetime: later reads of exactly these ids may reflect that defect
+    tainted = set()
 
-    def viol(what, textual):
+    def classify(textual, ids=()):
+        """finding id of a deviation: narrow classes only"""
+        if textual:
+            return FINDING_TEXT
+        if store == "mem" and ids and all(i in tainted for i in ids):
+            return FINDING_NAIVE
+        return None
+
+    def viol(what, textual, ids=()):
         out.append(Violation("%s store: %s" % (store, what), {"kind": "c11-case", "case": case},
-                             finding=FINDING_TEXT if textual else (FINDING_NAIVE if naive else None)))
+                             finding=classify(textual, ids)))
+
+    def text_id(recs, i):
+        """all versions of id i among recs are dictionary-kept (text `modified`)"""
+        rs = [r for r in recs if r["id"] == i]
+        return bool(rs) and all(r["text"] for r in rs)
 
     def expected_pairs(recs, mrecs, q):
         """(sure, optional): distinct (id, inst) -> payloads.  sure: some copy was certainly
@@ -608,25 +624,25 @@ def oracle_case(case, impl):
         if isinstance(got, str):
             viol("%s raised %s" % (what, got[1:]), False)
             return
-        textual = any(r["text"] for r in recs + mrecs)
+        allr = recs + mrecs
         sure, optional = expected_pairs(recs, mrecs, q)
         seen = set()
         for i, v, p in got:
             key = (i, None if v == "N" else (int(v[1:]) if v.startswith("I") else v))
             if key in seen:
-                viol("%s returns version %s of %s more than once" % (what, v, i), textual)
+                viol("%s returns version %s of %s more than once" % (what, v, i), text_id(allr, i), [i])
                 return
             seen.add(key)
             pays = sure.get(key) or optional.get(key)
             if pays is None:
-                viol("%s returns (%s, %s) which the list does not hold under this query" % (what, i, v), textual)
+                viol("%s returns (%s, %s) which the list does not hold under this query" % (what, i, v), False, [i])
                 return
             if p not in pays:
-                viol("%s returns (%s, %s) with content %s that was never added for it" % (what, i, v, p), textual)
+                viol("%s returns (%s, %s) with content %s that was never added for it" % (what, i, v, p), False, [i])
                 return
         for key in sure:
             if key not in seen:
-                viol("%s misses (%s, %s)" % (what, key[0], key[1]), textual)
+                viol("%s misses (%s, %s)" % (what, key[0], key[1]), False, [key[0]])
                 return
 
     for st, got in zip(case["steps"], impl):
@@ -648,7 +664,16 @@ def oracle_case(case, impl):
                         dup = True
                     keys.add((r["id"], r["inst"]))
                 if not has_bad and not (store == "fs" and dup and got == "!DataSourceError"):
-                    viol("add of well-formed objects raised %s" % got[1:], False)
+                    pool = L + maybe + recs
+                    mixed = [i for i in sorted({r["id"] for r in recs})
+                             if any(r["naive"] for r in pool if r["id"] == i)
+                             and any(not r["naive"] and r["has_mod"] for r in pool if r["id"] == i)]
+                    if store == "mem" and got == "!TypeError" and mixed:
+                        tainted.update(r["id"] for r in recs)
+                        viol("add of a version with a timezone-naive datetime next to an aware one raised TypeError",
+                             False, mixed)
+                    else:
+                        viol("add of well-formed objects raised %s" % got[1:], False)
                 maybe += recs
         elif op == "saveload":
             if got != "ok" and got != "n/a":
@@ -657,10 +682,10 @@ def oracle_case(case, impl):
             recs = [r for r in L if r["id"] == st["id"]]
             mrecs = [r for r in maybe if r["id"] == st["id"]]
             if isinstance(got, str):
-                viol("get(%s) raised %s" % (st["id"], got[1:]), False)
+                viol("get(%s) raised %s" % (st["id"], got[1:]), False, [st["id"]])
                 continue
-            textual = any(r["text"] for r in recs + mrecs)
             allrecs = recs + mrecs
+            textual = bool(allrecs) and all(r["text"] for r in allrecs)
             if not allrecs:
                 if got:
                     viol("get(%s) returns an object that was never added" % st["id"], False)
@@ -670,7 +695,7 @@ def oracle_case(case, impl):
                 continue      # what get means under attached filters that reject some copies is not stated
             if not got:
                 if recs and not af:
-                    viol("get(%s) returns nothing although versions were added" % st["id"], textual)
+                    viol("get(%s) returns nothing although versions were added" % st["id"], False, [st["id"]])
                 continue
             i, v, p = got[0]
             best = max((r["inst"] for r in recs if r["inst"] is not None), default=None)
@@ -679,10 +704,10 @@ def oracle_case(case, impl):
             if not recs:
                 acceptable = {r["inst"] for r in mrecs}
             if gv not in acceptable:
-                viol("get(%s) returns version %s, the greatest modified added is %s" % (st["id"], v, best), textual)
+                viol("get(%s) returns version %s, the greatest modified added is %s" % (st["id"], v, best), textual, [st["id"]])
                 continue
             if p not in {r["pay"] for r in allrecs if r["inst"] == gv}:
-                viol("get(%s) returns content %s that was never added for version %s" % (st["id"], p, v), textual)
+                viol("get(%s) returns content %s that was never added for version %s" % (st["id"], p, v), False, [st["id"]])
         elif op == "all":
             check_list("all_versions(%s)" % st["id"], got, [r for r in L if r["id"] == st["id"]], [],
                        [r for r in maybe if r["id"] == st["id"]])
@@ -692,7 +717,7 @@ def oracle_case(case, impl):
             if store == "fs" and not maybe and isinstance(got, int):
                 n = len({(r["id"], r["inst"]) for r in L})
                 if got != n:
-                    viol("%d files on disk for %d distinct (id, modified) added" % (got, n), any(r["text"] for r in L))
+                    viol("%d files on disk for %d distinct (id, modified) added" % (got, n), False)
     return out
 
 
@@ -725,7 +750,7 @@ def detect_mode(impl_w):
 
 def check(run):
     quick = run.tier == "quick"
-    n_cases = 220 if quick else 3000
+    n_cases = 600 if quick else 3000
     max_adds = 10 if quick else 40
     run.coverage["rule"] = (
         "histories of 1..%d add/load calls (objects, dictionaries, lists, nested lists, Bundle objects, dictionary "
@@ -738,6 +763,9 @@ def check(run):
     with common.Lock():
         res = common.build_props("Props/C11.v", extra_targets=["Model/StoreCases.vo"])
         run.add_build(res, "make -C coq Props/C11.vo (coqc 8.16.1, full .vo) + Print Assumptions per theorem")
+    probe = common.run_impl("c11_impl", [{"kind": "probe"}], procs=1)[0]
+    NAIVE_KEPT[0] = bool(probe.get("naive_kept", True))
+    run.coverage["naive_datetime_kept"] = NAIVE_KEPT[0]
     cases = [witness_case("mem"), witness_case("fs")]
     for k in range(n_cases):
         store = "mem" if k % 2 == 0 else "fs"
@@ -806,6 +834,8 @@ def check(run):
 def replay(payload):
     r = payload["replay"]
     case = r["case"]
+    probe = common.run_impl("c11_impl", [{"kind": "probe"}], procs=1)[0]
+    NAIVE_KEPT[0] = bool(probe.get("naive_kept", True))
     impl = common.run_impl("c11_impl", [case], procs=1)[0]
     print("replay C11 %s store, %d steps" % (case["store"], len(case["steps"])))
     for st, g in zip(case["steps"], impl if isinstance(impl, list) else []):
@@ -813,7 +843,7 @@ def replay(payload):
                               (st["op"], [(isinstance(it, dict) and (it["id"], it.get("mod"), it["pay"])) for _, its in flatten(st["x"]) for it in its]), g))
     vs = oracle_case(case, impl)
     want = payload.get("finding_class")
-    vs = [v for v in vs if want is None or v.finding == want or v.finding is None]
+    vs = [v for v in vs if v.finding == want]     # the class this replay was written for (None = unclassified)
     if vs:
         print("  " + vs[0].what)
         print("VIOLATION property=C11 replay=(given)")
